@@ -1,0 +1,20 @@
+//go:build verif
+
+package storage
+
+// Contracts for govc (see /verif/DESIGN.md). Compiled only with -tags verif.
+
+// Restart: the first value handed out after a restart is above every value the
+// checkpoint says was handed out before (unless the counter is exhausted).
+//@ func ResolveAllocatorStarts
+//@   property C27
+//@   ensures [above-checkpoint] (state.IDCurrent < 18446744073709551615 ==> result > state.IDCurrent) && (state.TSCurrent < 18446744073709551615 ==> result1 > state.TSCurrent)
+//@   ensures [not-below-requested] result >= idStart && result1 >= tsStart
+//@   modifies nothing
+
+// The persisted checkpoint never moves backwards, whatever order concurrent requests
+// reach this function in (no precondition on the arguments).
+//@ func (*LocalStore).SaveAllocatorState
+//@   property C27
+//@   ensures [monotone] s != nil ==> s.savedID >= old(s.savedID) && s.savedTS >= old(s.savedTS)
+//@   ensures [covers-request] s != nil && result == nil ==> s.savedID >= idCurrent && s.savedTS >= tsCurrent
